@@ -309,7 +309,10 @@ HStop(c, e) ==
   Res([c EXCEPT !.pc = "stopped", !.my = {}, !.needSess = TRUE, !.serial = "0", !.lastOk = 0, !.ack = None,
                 !.buf = <<>>, !.owed = None, !.alt = None, !.now = e.now, !.mayDown = FALSE, !.expired = FALSE],
       Chk({<<"C07", Has(e, "my") => e.my = <<>>>>, <<"C07", Has(e, "oth") => ToSet(e.oth) = c.oth>>,
-           <<"C08", c.goodSince # 0 => c.converged>>}))
+           <<"C08", c.goodSince # 0 => c.converged>>,
+           (* what the group manager (RtrMgr.tla, and the stubs of harness/mgr_harness.c) assumes of a stopped socket: *)
+           (* state RTR_CLOSED (so that it can be started again), bookkeeping reset                                     *)
+           <<"STUB", Has(e, "dbg") => (e.dbg.st = 10 /\ e.dbg.rs = 1 /\ e.dbg.sn = "0" /\ e.dbg.lu = 0)>>}))
 
 HMark(c, e) == Res([c EXCEPT !.goodSince = e.now, !.target = ToSet(e.cdata), !.converged = FALSE], {})
 HTick(c, e) == Res(c, {})      \* the clock moved inside a blocking call; c.now stays the time at which that call was made
